@@ -60,7 +60,12 @@ def run_unit(args):
         try:
             fn(S)
         except Exception as e:
-            S._record("unit-crash", "error", reason=f"{type(e).__name__}: {e}", trace=traceback.format_exc()[-3000:])
+            from lvc import ir as _ir
+            if isinstance(e, _ir.Unsupported):
+                # the code under contract uses something the translator does not model: undecided, never a verdict
+                S._record("unit-undecided", "undecided", reason=f"unsupported by the translator: {e}")
+            else:
+                S._record("unit-crash", "error", reason=f"{type(e).__name__}: {e}", trace=traceback.format_exc()[-3000:])
         for r in S.results:
             rp = r.pop("replay", None)
             model = r.pop("_model", None)
